@@ -297,7 +297,7 @@ def _products(kind):
             terms = SymSeq(n, term_at, "terms")
         else:
             terms = [term_at(j) for j in idx]
-        v.invariant(fn, 0, lambda env, i, seq: env["tot"] == SP.ssum_prefix(terms, i))
+        v.invariant(fn, 0, lambda env, i, seq: env["@acc"] == SP.ssum_prefix(terms, i))
         if kind == "limiting":
             r = v.call(fn, IS, stoich, zs, T, eps, rho)
         elif kind == "extended":
